@@ -69,6 +69,9 @@ type Options struct {
 	// that take the network id of a request from the header / metadata key
 	// NetworkHeader. Requests without the header use the default network.
 	MultiTenant bool
+	// TenantConfig (with MultiTenant): configuration overrides per network id; requests of such a network are
+	// served under their own configuration source (Contextualizer.Config), the others under the registry's.
+	TenantConfig map[uuid.UUID]map[string]any
 	// Contextualizer overrides the contextualizer (ignored if MultiTenant).
 	Contextualizer ketoctx.Contextualizer
 	// UnaryInterceptors are appended to keto's default gRPC interceptors.
@@ -103,7 +106,11 @@ func NetworkFrom(ctx context.Context) (uuid.UUID, bool) {
 
 // NetworkContextualizer is a ketoctx.Contextualizer that takes the network id
 // from the request context (WithNetwork) and falls back to the default.
-type NetworkContextualizer struct{}
+type NetworkContextualizer struct {
+	// Sources: per-network configuration sources (Options.TenantConfig); networks without an entry get the
+	// registry's own configuration.
+	Sources map[uuid.UUID]*configx.Provider
+}
 
 func (NetworkContextualizer) Network(ctx context.Context, def uuid.UUID) uuid.UUID {
 	if n, ok := NetworkFrom(ctx); ok {
@@ -112,7 +119,12 @@ func (NetworkContextualizer) Network(ctx context.Context, def uuid.UUID) uuid.UU
 	return def
 }
 
-func (NetworkContextualizer) Config(_ context.Context, c *configx.Provider) *configx.Provider {
+func (nc NetworkContextualizer) Config(ctx context.Context, c *configx.Provider) *configx.Provider {
+	if n, ok := NetworkFrom(ctx); ok {
+		if p := nc.Sources[n]; p != nil {
+			return p
+		}
+	}
 	return c
 }
 
@@ -219,8 +231,23 @@ func NewServer(t testing.TB, o Options) *Server {
 	unary := append([]grpc.UnaryServerInterceptor{}, o.UnaryInterceptors...)
 	switch {
 	case o.MultiTenant:
+		nc := NetworkContextualizer{Sources: map[uuid.UUID]*configx.Provider{}}
+		for nid, over := range o.TenantConfig {
+			tv := map[string]any{}
+			for k, v := range vals {
+				tv[k] = v
+			}
+			for k, v := range over {
+				tv[k] = v
+			}
+			tc, err := config.NewDefault(configx.ContextWithConfigOptions(context.WithoutCancel(ctx), configx.WithValues(tv)), nil, l)
+			if err != nil {
+				t.Fatalf("apih: tenant configuration: %v", err)
+			}
+			nc.Sources[nid] = tc.Source()
+		}
 		kopts = append(kopts,
-			ketoctx.WithContextualizer(NetworkContextualizer{}),
+			ketoctx.WithContextualizer(nc),
 			ketoctx.WithHTTPMiddlewares(func(rw http.ResponseWriter, r *http.Request, next http.HandlerFunc) {
 				if h := r.Header.Get(NetworkHeader); h != "" {
 					if n, err := uuid.FromString(h); err == nil {
